@@ -60,6 +60,11 @@ func verifyFunction(P *Program, key string) (res *FuncResult) {
 	}
 	defer func() {
 		res.GenSecs = time.Since(t0).Seconds()
+		for _, o := range x.obls {
+			if t, ok := x.kfExcept[o.Name]; ok {
+				o.Except = t
+			}
+		}
 		res.Obls = x.obls
 		res.Warnings = x.warnings
 		res.Script = x.sc
@@ -109,6 +114,20 @@ func verifyFunction(P *Program, key string) (res *FuncResult) {
 			if strings.HasPrefix(cl.Label, "ASSUME.") {
 				x.assumed = append(x.assumed, fmt.Sprintf("%s assumes %s", shortKey(P, key), cl.Text))
 			}
+		}
+	}
+	// known findings: evaluate the "except" predicates on the parameters
+	if ctr != nil {
+		bvals := x.bindingValues(st, fn, bindings)
+		for _, kc := range ctr.KFExcept {
+			if kc.Clause.Broken != "" {
+				continue
+			}
+			cargs := x.clauseArgs(ctr, kc.Clause, args, bvals, nil, nil)
+			g := x.evalClauseFn(kc.Clause.Fn, cargs, st, st)
+			n := x.sc.fresh("kfexcept")
+			x.sc.emit("(define-fun %s () Bool %s)", n, g)
+			x.kfExcept[kc.Obligation] = n
 		}
 	}
 	// vacuity guard: the precondition must be satisfiable
